@@ -575,7 +575,7 @@ func init() {
 	register(&Property{
 		ID:    "C17",
 		Level: "other",
-		Explanation: "Decides the comparison-only part of 'cutting a certificate's block range never drops, duplicates or reorders events': C17-filter — in Range both filter loops range over the source slice in order and append the element itself iff fromBlock <= BlockNum <= toBlock (each append is dominated by both bound edges, and from the point where both hold the loop cannot advance without appending; the comparisons are recognised in all four written forms, so the result is exact for this comparison-only code), the new parameters take the requested bounds and copy every other field, a sub-range is built only for c.FromBlock <= fromBlock <= toBlock <= c.ToBlock and the receiver is returned only for its own range; C17-first — every caller of Range passes the certificate's own FromBlock; C17-exit — limitCertSize drops exactly the last block per step, iterates on each cut's result and returns only when no limit is set, the estimate fits, or one block is left; the last-block clamp cuts to exactly maxL2BlockNumber only when ToBlock exceeds it. C17-gap — the shape of BlockRange.Gap's touch test: no +1/-1 arithmetic on an endpoint inside a branch condition (endpoints are compared directly or through getBlockMinusOne), getBlockMinusOne subtracts only on its x > 0 edge and returns 0 otherwise, and the empty gap is returned exactly on the two >= edges against the saturating predecessor. Declined: maximality of the cut and monotonicity of EstimatedSize (float arithmetic), and the numeric values of the non-empty gap (needs a relational numeric domain or a solver, outside this family as practised here). C17-exit also requires every successful result of GetCertificateBuildParamsInternal to be what limitCertSize returned.",
+		Explanation: "Decides the comparison-only part of 'cutting a certificate's block range never drops, duplicates or reorders events': C17-filter — in Range both filter loops range over the source slice in order and append the element itself iff fromBlock <= BlockNum <= toBlock (each append is dominated by both bound edges, and from the point where both hold the loop cannot advance without appending; the comparisons are recognised in all four written forms, so the result is exact for this comparison-only code), the new parameters take the requested bounds and copy every other field, a sub-range is built only for c.FromBlock <= fromBlock <= toBlock <= c.ToBlock and the receiver is returned only for its own range; C17-first — every caller of Range passes the certificate's own FromBlock; C17-exit — limitCertSize drops exactly the last block per step, iterates on each cut's result and returns only when no limit is set, the estimate fits, or one block is left; the last-block clamp cuts to exactly maxL2BlockNumber only when ToBlock exceeds it. C17-gap — the shape of BlockRange.Gap's touch test: no +1/-1 arithmetic on an endpoint inside a branch condition (endpoints are compared directly or through getBlockMinusOne), getBlockMinusOne subtracts only on its x > 0 edge and returns 0 otherwise, and the empty gap is returned exactly on the two >= edges against the saturating predecessor. Declined: maximality of the cut and monotonicity of EstimatedSize (float arithmetic), and the numeric values of the non-empty gap (needs a relational numeric domain or a solver, outside this family as practised here). C17-exit also requires every successful result of GetCertificateBuildParamsInternal to be what limitCertSize returned. Added after round 7: parameters are typed before limitCertSize measures them (C17-exit), the last-settled range handed to Gap is [FromBlock, ToBlock] or [0, FromBlock-1] by the InError edge (C17-gap).",
 		Rules: []Rule{
 			{ID: "C17-filter", Floor: 13, Run: c17Filter, Text: "[ORD]-style exact comparison analysis of the Range filters and precondition; literal field map"},
 			{ID: "C17-first", Floor: 3, Run: c17First, Text: "[PROV] every cut keeps the first block"},
